@@ -145,3 +145,146 @@ def assembler_roles(idx):
         for cl in classes:
             out.setdefault(cl.split(".")[1], {}).update({k: set(v) for k, v in roles.items()})
     return m, out
+
+
+# ---------------------------------------------------------------------------- write-back of visited objects
+WRITEBACK_EXCEPTIONS = {
+    # (class, field): reason  -- reviewed; each entry is re-verified structurally (the call must still have that shape)
+    ("Sequential", "_sensitivity.signals[*]"): "sensitivity entries are root Signals of the entity; no rewriting callback maps a root Signal to another "
+    "object (alias maps apply to reads inside CodeBlocks, temporaries cannot be sensitivity entries), so the dropped result is unobservable",
+}
+
+
+def _iter_root(fn, name, depth=0):
+    """the field of self (or '<operand>' for a nested helper's parameter) whose elements the loop variable `name` ranges over"""
+    if depth > 4:
+        return None
+    for l in ast.walk(fn):
+        if isinstance(l, ast.For) and any(isinstance(x, ast.Name) and x.id == name for x in ast.walk(l.target)):
+            d = dotted(l.iter) or ""
+            if d.startswith("self."):
+                return d.split(".", 1)[1].split(".")[0]
+            base = d.split(".")[0]
+            if base:
+                for g in ast.walk(fn):
+                    if isinstance(g, (ast.FunctionDef, ast.AsyncFunctionDef)) and g is not fn and base in [a.arg for a in g.args.args]:
+                        return "<operand>"
+                r = _iter_root(fn, base, depth + 1)
+                if r is not None:
+                    return r
+    return None
+
+
+def _mentions(e, names):
+    return any(isinstance(n, ast.Name) and n.id in names for n in ast.walk(e))
+
+
+def writeback_problems(idx):
+    """visit_objects is a REWRITING traversal (alias redirection, temporary replacement, bool-cast removal all work
+    by returning a different object from the callback).  The value of every `operation(<field>, flag)` must flow back
+    into the field it was read from: directly (`self.F = operation(self.F, ..)`), through a comprehension over the
+    field, or through locals / appended lists / a nested helper's return value that end in `self.F = ..`.
+    -> (module, problems [(class, field, line, found)], number of calls whose value flows back)"""
+    m = idx.mod(IRR)
+    pm = m.parents
+    out, n_ok = [], []
+    for cname, c in m.classes.items():
+        if "." in cname:
+            continue
+        vo = m.functions.get(f"{cname}.visit_objects")
+        if vo is None:
+            continue
+        fn = vo.node
+        for n in ast.walk(fn):
+            if not (isinstance(n, ast.Call) and dotted(n.func) == "operation" and len(n.args) == 2):
+                continue
+            fld = field_of(n.args[0], n, fn, pm)
+            is_self_field = not fld.split("[")[0].split(".")[0].isidentifier() or any(
+                (dotted(a) or "").startswith("self." + fld.split("[")[0].split(".")[0]) for a in ast.walk(fn) if isinstance(a, ast.Attribute))
+            base_field = fld.split("[")[0].split(".")[0]
+            # forward flow of the call's value through names
+            carriers = set()
+            stores = set()   # self fields the value reaches
+            stmt = pm.enclosing_stmt(n)
+
+            def absorb(st, seed):
+                """st consumes a carried value (seed: the call node itself for the first statement)"""
+                carried = lambda e: (seed is not None and any(x is seed for x in ast.walk(e))) or _mentions(e, carriers)
+                changed = False
+                if isinstance(st, (ast.Assign, ast.AnnAssign)) and st.value is not None and carried(st.value):
+                    tg = st.targets[0] if isinstance(st, ast.Assign) else st.target
+                    d = dotted(tg)
+                    if d and d.startswith("self."):
+                        f_ = d.split(".", 1)[1].split(".")[0]
+                        if f_ not in stores:
+                            stores.add(f_); changed = True
+                    elif isinstance(tg, ast.Name) and tg.id not in carriers:
+                        carriers.add(tg.id); changed = True
+                    elif isinstance(tg, ast.Attribute) and isinstance(tg.value, ast.Name):
+                        # attribute of an element reached by iterating over a field (for x in self.F: x.attr = ..)
+                        root = _iter_root(fn, tg.value.id)
+                        if root is not None and root not in stores:
+                            stores.add(root); changed = True
+                    elif isinstance(tg, ast.Subscript):
+                        dv = dotted(tg.value) or ""
+                        if dv.startswith("self."):
+                            f_ = dv.split(".", 1)[1].split(".")[0]
+                            if f_ not in stores:
+                                stores.add(f_); changed = True
+                        elif isinstance(tg.value, ast.Name) and tg.value.id not in carriers:
+                            carriers.add(tg.value.id); changed = True
+                elif isinstance(st, ast.Expr) and isinstance(st.value, ast.Call) and isinstance(st.value.func, ast.Attribute) and st.value.func.attr in ("append", "extend", "add", "insert"):
+                    if any(carried(a) for a in st.value.args):
+                        d = dotted(st.value.func.value) or ""
+                        if d.startswith("self."):
+                            f_ = d.split(".", 1)[1].split(".")[0]
+                            if f_ not in stores:
+                                stores.add(f_); changed = True
+                        elif isinstance(st.value.func.value, ast.Name) and st.value.func.value.id not in carriers:
+                            carriers.add(st.value.func.value.id); changed = True
+                elif isinstance(st, ast.Return) and st.value is not None and carried(st.value):
+                    g = pm.enclosing_function(st)
+                    if g is not None and g is not fn and g.name not in carriers:
+                        carriers.add(g.name); changed = True
+                return changed
+
+            absorb(stmt, n)
+            for _ in range(6):
+                ch = False
+                for st in ast.walk(fn):
+                    if isinstance(st, ast.stmt) and st is not stmt:
+                        ch = absorb(st, None) or ch
+                if not ch:
+                    break
+            if is_self_field and base_field.isidentifier() and any((dotted(a) or "") == "self." + base_field for a in ast.walk(fn) if isinstance(a, ast.Attribute)):
+                ok = base_field in stores
+            else:
+                ok = bool(stores)  # operand of a nested helper: must reach some field of self
+            exc = WRITEBACK_EXCEPTIONS.get((cname, fld))
+            if ok:
+                n_ok.append((cname, fld, n.lineno, "flows back"))
+            elif exc is not None:
+                n_ok.append((cname, fld, n.lineno, "reviewed exception"))
+            else:
+                out.append((cname, fld, n.lineno, f"value of operation(..) reaches {sorted('self.' + x for x in stores) or 'no field of self'}"))
+    return m, out, n_ok
+
+
+def run_writeback_rule(run, rule_id="F-WRITEBACK"):
+    run.begin(
+        rule_id,
+        "IR visit_objects is a rewriting traversal: the value returned by the callback for a field flows back into "
+        "that same field (directly, through a comprehension / locals / appended lists, or a nested helper's return "
+        "value); otherwise alias redirection, temporary replacement and cast removal silently miss that operand",
+        floor=30,
+    )
+    m, problems, n_ok = writeback_problems(run.idx)
+    for cname, fld, line, found in problems:
+        run.ob(False, f"{cname}.visit_objects", file=m.rel, line=line, detail=fld, expected=f"self.{fld.split('[')[0]} = .. operation(..) ..", found=found)
+    seen = {}
+    for cname, fld, line, how in n_ok:
+        k = seen[(cname, fld)] = seen.get((cname, fld), 0) + 1
+        run.ob(True, f"{cname}.visit_objects", file=m.rel, line=line, detail=f"{fld}#{k}", expected="value flows back into the field", found=how, sample=(cname == "CaseWhen"))
+    for (cname, fld), why in WRITEBACK_EXCEPTIONS.items():
+        run.note(f"reviewed exception {cname}.{fld}: {why}")
+    run.end()
